@@ -26,6 +26,12 @@ CHECKS = {
  'C14': dict(technique=TECH,
    text='MC_VarDecl: add_var/undeclare_vars/var/apply/drop/gc/swap interleavings over 3 names under TLC (AddVarC, UndeclareC, HeldSame, Canonical); graph replays and seeded histories over 6 names on the real code (idempotent / conflicting / used-level declarations, undeclare of no / unused / used / unknown names) with the four order views read after every step; TLC checks the views against the recorded order, exact removed sets, refusals exactly when required, held functions unchanged by name.',
    note=TRUST + 'Levels passed to add_var are never gaps (precondition).', design='7 (C14)'),
+ 'C08': dict(technique=TECH,
+   text='The handle discipline is model-checked as slots/ledger in BDDSpec (create, dup, drop in any order, collect, swap: RefExact, HeldSame). Seeded dd.autoref histories (all Function operators, traversals low/high/succ, second handles incl. copy.copy and _add_int, drops in random order, collect_garbage, reorder, one third with dynamic reordering on) are recorded with the ledger taken from gc.get_objects() (live Function objects per node) and every step is judged by TLC: count = in-edges + live Functions, live denotations unchanged; finally all handles are dropped: collection must leave only the terminal and the shutdown check must pass.',
+   note=TRUST + 'CPython immediate finalisation of Function objects; the registry is gc.get_objects().', design='7 (C08)'),
+ 'C17': dict(technique=TECH,
+   text='About 60 kinds of rejected call (undeclared variables, unknown nodes, unknown operator, arity errors, syntax errors with the offending token at every position, bad levels/orders/swaps, undeclare of used/unknown variables, unreadable files, ...) are injected with probability 0.3 at every step of seeded dd.bdd histories, half of them with dynamic reordering on; TLC checks after every raised call that held denotations, canonicity, exact counts, order and flags are intact (exc.*) and that the next successful call satisfies its own contract (exc.next). The decorator protocol incl. a call that raises in the retry is model-checked (MC_Dyn_protected).',
+   note=TRUST + 'A rejected call may leave new unreferenced nodes. Foreign-manager Functions (dd.autoref) are covered in C08 histories only implicitly.', design='7 (C17)'),
  'C09': dict(technique=TECH,
    text='DynReorder.tla models the _try_to_reorder protocol (exceptions as threaded flags, nesting flag, retry with requests off, re-arm); TLC checks for every existing trigger position that decorated entries return the same function, keep held references, stay enabled and never leak the signal (and exhibits the failures of undecorated entries). On the real code every listed operation of dd.autoref and dd.bdd is run with the request firing at EVERY position k=1..N (N counted by a dry run) on identically rebuilt managers, plus natural triggering at lowered thresholds; TLC judges each run against the untriggered reference run.',
    note=TRUST + 'The harness replaces dd.bdd._request_reordering in its own process by a counting/raising wrapper (no source hook). Open known findings: find_or_add, load, image, preimage, module-level rename run outside the retry wrapper.', design='7 (C09), 9'),
